@@ -134,6 +134,12 @@ impl ToiAllocator {
         })
     }
 
+    /// Number of TOIs currently reserved (verification hook)
+    #[cfg(feature = "ypo_flute_verif")]
+    pub fn verif_reserved_count(&self) -> usize {
+        self.internal.lock().unwrap().toi_reserved.len()
+    }
+
     pub fn release(&self, toi: u128) {
         if toi == lct::TOI_FDT {
             return;
